@@ -30,12 +30,23 @@ func h_id(b byte) (id [32]byte) {
 
 // C04: connecting a block of coinbase + 1..2 transactions on a symbolic UTXO pre-state.
 func H_C04_CommitTxs() {
-	zzverif.IntMode() // value sums are compared as mathematical integers (associativity of 64-bit adder chains stalls bit-blasting)
 	ntx := 1 + zzverif.Enum("ntx-1", 1+zzverif.Tier()) // further transactions: 1 (quick) / 1..2 (thorough)
-	zzverif.Bound("block shape", "coinbase + 1 (quick) or 1..2 (thorough) transactions, each 1..2 inputs and 1..2 outputs; inputs choose among two pre-state txids, the block's own coinbase and an earlier transaction of the block; vout in 0..2")
+	zzverif.Bound("block shape", "coinbase + 1 (quick) or 1..2 (thorough) transactions, each 1..2 inputs and 1..2 outputs; inputs choose among two pre-state txids, the block's own coinbase and every transaction of the block (itself and a later one included); vout in 0..2")
 	// the block height is case-split over subsidy-era boundaries (the subsidy schedule itself is decided for every
 	// height by H_C04_Subsidy); everything else that depends on it (maturity) stays symbolic through the pre-state heights
 	heights := []uint32{1000, 209999, 210000, 840000, 6929999, 6930000}
+	h_c04_commit(ntx, 2, 2, heights)
+}
+
+// C04: order of transactions inside a block: two transactions of one input and one output each, every
+// in-block reference (earlier, self, later) available to both.
+func H_C04_InBlockOrder() {
+	zzverif.Bound("block shape", "coinbase + 2 transactions, each 1 input and 1 output; inputs choose among two pre-state txids, the block's own coinbase and both transactions of the block; vout in 0..2; one height")
+	h_c04_commit(2, 1, 1, []uint32{840000})
+}
+
+func h_c04_commit(ntx, maxin, maxout int, heights []uint32) {
+	zzverif.IntMode() // value sums are compared as mathematical integers (associativity of 64-bit adder chains stalls bit-blasting)
 	height := heights[zzverif.Enum("height", len(heights))]
 
 	// ---- symbolic pre-state (representation invariant: confirmed below this block, values in range)
@@ -116,18 +127,20 @@ func H_C04_CommitTxs() {
 		tx := new(btc.Tx)
 		tx.Hash.Hash = txids[t]
 		tx.Version = 1
-		nin := 1 + zzverif.Enum("nin-1", 2)
+		nin := 1 + zzverif.Enum("nin-1", maxin)
 		for j := 0; j < nin; j++ {
-			cands := [][32]byte{pre[0].id, pre[1].id, cb.Hash.Hash}
-			if t > 0 {
-				cands = append(cands, txids[0])
+			// candidates: the two pre-state txids, the block's own coinbase, and every transaction of the block
+			// (an earlier one is legitimate; the transaction itself or a later one must be refused)
+			cands := [][32]byte{pre[0].id, pre[1].id, cb.Hash.Hash, txids[0]}
+			if ntx > 1 {
+				cands = append(cands, txids[1])
 			}
 			id := cands[zzverif.Enum("prev", len(cands))]
 			vout := uint32(zzverif.Enum("vout", 3))
 			tx.TxIn = append(tx.TxIn, &btc.TxIn{Input: btc.TxPrevOut{Hash: id, Vout: vout}, ScriptSig: []byte{}})
 			spends = append(spends, spend{id, vout})
 		}
-		nout := 1 + zzverif.Enum("nout-1", 2)
+		nout := 1 + zzverif.Enum("nout-1", maxout)
 		for j := 0; j < nout; j++ {
 			tx.TxOut = append(tx.TxOut, &btc.TxOut{Value: zzverif.U64("out.value"), Pk_script: []byte{0x51}})
 		}
@@ -176,8 +189,8 @@ func H_C04_CommitTxs() {
 					val, found = e.value[s.vout], true
 				}
 			}
-			if !found && s.id == txids[0] {
-				zzverif.Assert("C04.input-created-earlier-in-block", t == 2 && int(s.vout) < len(bl.Txs[1].TxOut))
+			if !found && (s.id == txids[0] || s.id == txids[1]) {
+				zzverif.Assert("C04.input-created-earlier-in-block", t == 2 && s.id == txids[0] && int(s.vout) < len(bl.Txs[1].TxOut))
 				val, found = bl.Txs[1].TxOut[s.vout].Value, true
 			}
 			zzverif.Assert("C04.input-resolves", found)
